@@ -31,7 +31,11 @@ namespace sim {
 		// simplified network model where the two paths of a connection are set up
 		// independently, and we can set up the nat hop only on the outgoing path
 		p.from.address(m_external_addr);
-		if (p.channel) {
+		// visible_ep[0] is how the initiator of the connection appears to the
+		// other end. Only the initiator's SYN defines that. The SYN+ACK of an
+		// acceptor that is behind a NAT itself carries the channel too, and must
+		// not overwrite it
+		if (p.channel && p.type == aux::packet::type_t::syn) {
 			p.channel->visible_ep[0].address(m_external_addr);
 		}
 		forward_packet(std::move(p));
